@@ -28,6 +28,11 @@ verus! {
 pub assume_specification[i32::saturating_add](a: i32, b: i32) -> (r: i32)
     ensures r == (if a + b > i32::MAX { i32::MAX as int } else if a + b < i32::MIN { i32::MIN as int } else { a + b });
 }
+verus! {
+// [trusted] String::len is the UTF-8 byte length (uninterpreted): widens the accepted subset, no proof depends on its value
+pub uninterp spec fn spec_utf8_len(s: Seq<char>) -> usize;
+pub assume_specification[String::len](s: &String) -> (r: usize) ensures r == spec_utf8_len(s@);
+}
 use vstd::std_specs::hash::*;
 use std::collections::HashMap;
 use std::sync::Arc;
